@@ -704,3 +704,35 @@ def z_ite_bool(c, a, b):
     if a is False and b is False:
         return False
     return concretize(z3.If(c, to_bool(a), to_bool(b)))
+
+
+def float_decode(s):
+    """For a string accepted by the numeric branch of float_grammar_accept: the parts of
+    the decimal numeral after stripping: (neg, mant, nfrac, exp) with value
+    (-1)^neg * mant * 10^(exp - nfrac); underscores ignored.  z3 Int/Bool terms."""
+    t = SymStr.of(str_strip(s))
+    mant, nfrac, exp = z3.IntVal(0), z3.IntVal(0), z3.IntVal(0)
+    seen_pt, seen_e = False, False
+    neg, eneg = False, False
+    prev_is_e = False
+    for k in range(t.cap):
+        c = t.chars[k]
+        inlen = _lt(k, t.n)
+        d = z_and(inlen, is_digit_c(c))
+        dv = to_int(c) - 48
+        is_pt = z_and(inlen, z_eq(c, 46))
+        is_e = z_and(inlen, char_in(c, 'eE'))
+        is_minus = z_and(inlen, z_eq(c, 45))
+        in_exp = seen_e
+        mant = z3.If(to_bool(z_and(d, z_not(in_exp))), 10 * mant + dv, mant)
+        nfrac = z3.If(to_bool(z_and(d, z_not(in_exp), seen_pt)), nfrac + 1, nfrac)
+        exp = z3.If(to_bool(z_and(d, in_exp)), 10 * exp + dv, exp)
+        if k == 0:
+            neg = is_minus
+        else:
+            eneg = z_or(eneg, z_and(is_minus, prev_is_e))
+        seen_pt = z_or(seen_pt, is_pt)
+        seen_e = z_or(seen_e, is_e)
+        prev_is_e = is_e
+    exp = z3.If(to_bool(eneg), -exp, exp)
+    return neg, concretize(mant), concretize(nfrac), concretize(exp)
